@@ -515,6 +515,36 @@ def replay_printers(fn, model):
                             detail='%s: observed %s; the statement requires %s (%d real calls tried, the first is the counter-model)' % (
                                 inp, bad[0], bad[1], len(seen)))
         return dict(confirmed=False, detail='the real printer satisfies the statement on the counter-model and on %d neighbouring inputs' % len(seen))
+    if fn in ('pretty_deque', 'pretty_defaultdict', 'pretty_ordereddict', 'pretty_counter', 'pretty_baseexception'):
+        import collections as _c
+        import prettyprinter
+        vals = {
+            'pretty_deque': [_c.deque([1, 2, 3], maxlen=5), _c.deque(), _c.deque([1, 2, 3]), _c.deque([], maxlen=0), _c.deque([[1], [2]], maxlen=2)],
+            'pretty_defaultdict': [_c.defaultdict(list, {1: [2], 3: []}), _c.defaultdict(int), _c.defaultdict(None, {'a': 1})],
+            'pretty_ordereddict': [_c.OrderedDict([(2, 1), (1, 2)]), _c.OrderedDict(), _c.OrderedDict([('b', [1]), ('a', {})])],
+            'pretty_counter': [_c.Counter('abracadabra'), _c.Counter(), _c.Counter({'x': 0, 'y': -2})],
+            'pretty_baseexception': [KeyError('x', 1), ValueError(), OSError(2, 'No such file')],
+        }[fn]
+        ns = {'collections': _c, 'KeyError': KeyError, 'ValueError': ValueError, 'OSError': OSError, 'list': list, 'int': int}
+        for v in vals:
+            for w in (79, 10):
+                try:
+                    text = prettyprinter.pformat(v, width=w)
+                    got = eval('(' + text + '\n)', dict(ns))
+                    if isinstance(v, BaseException):
+                        ok = type(got) is type(v) and got.args == v.args
+                    else:
+                        ok = type(got) is type(v) and got == v and getattr(got, 'maxlen', None) == getattr(v, 'maxlen', None) \
+                            and getattr(got, 'default_factory', None) is getattr(v, 'default_factory', None) \
+                            and (not isinstance(v, _c.OrderedDict) or list(got.items()) == list(v.items()))
+                    obs = text
+                except Exception as e:      # noqa
+                    ok, obs = False, 'raised / does not evaluate: %r' % e
+                if not ok:
+                    inp = 'pformat(%r, width=%d)' % (v, w)
+                    return dict(confirmed=True, input=inp, observed=obs[:300], required='evaluates to an equal object of the same type',
+                                detail='%s printed %r, which does not rebuild the value' % (inp, obs[:200]))
+        return dict(confirmed=False, detail='every value tried is rebuilt by evaluating what the real printer prints')
     if fn == 'general_identifier':
         import sys as _sys
         import types as _types
